@@ -83,8 +83,8 @@ package mqtt
 //@        (evCount("publishImpl$2") == 1 ==> evArg[*BaseClient]("publishImpl$2", 0, 1) == c)
 //@   ensures[C12] qos0_no_handle: qos0 == QoS0 ==> !isRetryErr(result) && evCount("publishImpl$2") == 0
 //@   ensures[C01,C02,C18,C19] interrupted: sig0 != nil && qos0 > QoS0 && result != nil && result != io.EOF ==> isRetryErr(result)
-//@   ensures[C02,C12] stage1: evCount("publishImpl$2") == 0 && isRetryErr(result) ==>
-//@        closureIs(retryOf(result), "publishImpl$1") && *closureVarN[**Message](retryOf(result), "publishImpl$1", "message") == message
+//@   ensures[C01,C02,C12,C19] stage1: evCount("publishImpl$2") == 0 && isRetryErr(result) ==>
+//@        closureIs(retryOf(result), "publishImpl$1") && closureCaptures(retryOf(result), "publishImpl$1", message)
 //@   ensures[C02,C12] stage2: evCount("publishImpl$2") == 1 ==> result == evRet[error]("publishImpl$2", 0, 0) && qos0 == QoS2
 //@   ensures[C02,C07] rec_first: evCount("publishImpl$2") == 1 ==> evCount("select") == 1 && evRet[int]("select", 0, 0) == 2 &&
 //@        evIndex("(*BaseClient).write", 0) < evIndex("select", 0) && evIndex("select", 0) < evIndex("publishImpl$2", 0)
